@@ -557,6 +557,8 @@ pub struct BindRequest<'data> {
     payload: BindPayload<'data>,
     /// Place to respond to the bind request
     tx_msg_tx: mpsc::UnboundedSender<Message>,
+    /// Whether the user has already replied to this request
+    replied: core::sync::atomic::AtomicBool,
 }
 
 impl BindRequest<'_> {
@@ -590,6 +592,8 @@ impl BindRequest<'_> {
     /// - Returns [`Error::Closed`] if the `Multiplexor` is already closed.
     #[tracing::instrument(skip(self), level = "debug")]
     pub fn reply(&self, accepted: bool) -> Result<()> {
+        self.replied
+            .store(true, core::sync::atomic::Ordering::Relaxed);
         if accepted {
             self.tx_msg_tx.send(Frame::new_finish(self.flow_id).into())
         } else {
@@ -612,8 +616,12 @@ impl BindRequest<'_> {
 }
 
 impl Drop for BindRequest<'_> {
-    /// Dropping a `BindRequest` will reject the request
+    /// Dropping a `BindRequest` will reject the request if it has not been replied to
     fn drop(&mut self) {
-        self.reply(false).ok();
+        // The flow ID is free for reuse once a reply has been sent: a second `Reset`
+        // could hit an unrelated flow that has since taken the same ID.
+        if !self.replied.load(core::sync::atomic::Ordering::Relaxed) {
+            self.reply(false).ok();
+        }
     }
 }
